@@ -576,6 +576,56 @@ theorem onfly_runs_exactly_at (env : Env) (s s1 : Sched) (out : Out) (off : Nat)
   exact pending_runs_exactly_at env s1 x off rest true hi1 henv hoff hc1 hc0 hrest hother hnoreset hfly hdisc
     (by simp [hne])
 
+/-- **An item of a set scheduled on the fly** (`tdma_schedule_set(off, set, p3)` called by a callback
+while frame F is executed, no overflow reported; `fs` = the frames of the set as `flyOps` shows them,
+`off + fs.length ≤ 25`): the item `x` of its `k`-th frame, `off + k ≥ 1`, does not run in frame F and
+then, under the firmware discipline, runs exactly once, at the `execute` that follows exactly `off + k`
+advances — `k` frames after the items of the set's first frame. -/
+theorem onfly_set_runs_exactly_at (env : Env) (s s1 : Sched) (out : Out) (off k : Nat)
+    (fs : List (List (AItem Cb))) (f : List (AItem Cb)) (x : AItem Cb) (r : Int)
+    (pre post : List (Spec.TdmaSched.Op Cb)) (rest : List Op)
+    (hinv : Inv env s) (henv : EnvOk env) (hpos : 1 ≤ off + k) (hdepth : off + fs.length ≤ 25)
+    (hexec : step env s .execute = .ok (s1, out))
+    (hsplit : flyOps env out = pre ++ Spec.TdmaSched.Op.scheduleSet off fs :: post)
+    (hret : out.rets.flatten[pre.length]? = some r) (hr : r ≠ -1)
+    (hk : fs[k]? = some f) (hx1 : f.count x = 1)
+    (hx0 : ∀ k' f', k' ≠ k → fs[k']? = some f' → x ∉ f')
+    (hfresh : ∀ d, d < 25 → x ∉ abs s d)
+    (hpre : ∀ c ∈ pre, x ∉ Spec.TdmaSched.placed c) (hpost : ∀ c ∈ post, x ∉ Spec.TdmaSched.placed c)
+    (hrest : ∀ op ∈ rest, OpOk env op)
+    (hother : ∀ op ∈ rest, x ∉ Spec.TdmaSched.placed (absOp op))
+    (hnoreset : ∀ op ∈ rest, isResetOp op = false)
+    (hfly : ∀ s' outs, run env s1 rest = .ok (s', outs) → NoFlyPlaces env x outs)
+    (hdisc : disciplined true rest = true) :
+    ranCount x out = 0 ∧
+    ∃ s' outs, run env s1 rest = .ok (s', outs) ∧
+      ∀ i o, outs[i]? = some o →
+        ranCount x o = if rest[i]? = some .execute ∧ advancesBefore rest i = off + k then 1 else 0 := by
+  obtain ⟨s1', out', h1, hi1, _, _, hx⟩ := execute_on_the_fly env s hinv henv
+  rw [hexec] at h1
+  simp only [Except.ok.injEq, Prod.mk.injEq] at h1
+  obtain ⟨e1, e2⟩ := h1
+  subst e1; subst e2
+  have hat : Spec.TdmaSched.At x (abs s) none :=
+    ⟨fun d h => by simp at h, fun e he => by simpa using List.count_eq_zero.mpr (hfresh e he)⟩
+  have hklt : k < fs.length := (List.getElem?_eq_some_iff.mp hk).1
+  obtain ⟨hcnt, hat1, _⟩ := Spec.TdmaSched.execOnTheFly_fresh_set (absScr env) (abs s) (abs s1) _ _ x pre post
+    off k fs f r hdepth (absScr_isCall env) hx hat hsplit
+    (fun c hc it hit hxx => by subst hxx; exact hpre c hc hit)
+    (fun c hc it hit hxx => by subst hxx; exact hpost c hc hit) hk hx1 hx0 hret hr
+  have hne : off + k ≠ 0 := by omega
+  simp only [hne, if_false] at hcnt hat1
+  refine ⟨hcnt, ?_⟩
+  have hlt : off + k < 25 := by omega
+  have hc1 : (abs s1 (off + k)).count x = 1 := by simpa using hat1.2 (off + k) hlt
+  have hc0 : ∀ e', e' < 25 → e' ≠ off + k → (abs s1 e').count x = 0 := by
+    intro e' he' hne'
+    have := hat1.2 e' he'
+    have hn : ¬ (some (off + k) = some e') := by simp only [Option.some.injEq]; omega
+    simpa [hn] using this
+  exact pending_runs_exactly_at env s1 x (off + k) rest true hi1 henv hlt hc1 hc0 hrest hother hnoreset hfly
+    hdisc (fun h => hne h.2)
+
 /-- **An item scheduled on the fly for the current frame** (`tdma_schedule(0, ..)` called by a callback
 while `execute` runs, the call returned 0) runs exactly once in the SAME `execute`: the invoked callbacks
 are `p ++ f`, where `p` is a permutation of the items that were pending when `execute` started (`x` is
@@ -740,6 +790,7 @@ example : obsFly envFly (init 3) [.schedule 0 (.fn 16) 7 7 7 0, .execute, .execu
 /-- the items scheduled on the fly by callback 13: for the frame after next / for the current frame -/
 def xLater : AItem Cb := ⟨.fn 2, 103, 0, 0, 0⟩
 def xNow : AItem Cb := ⟨.fn 1, 101, 0, 0, 5⟩
+def xSet : AItem Cb := ⟨.fn 4, 106, 0, 9, 0⟩
 def preEx : List (Spec.TdmaSched.Op Cb) :=
   [.schedule 0 ⟨.fn 1, 101, 0, 0, 5⟩, .schedule 0 ⟨.fn 14, 102, 0, 0, -5⟩]
 def postEx : List (Spec.TdmaSched.Op Cb) :=
@@ -766,6 +817,17 @@ example : ((run envFly (init 24) histPre).toOption.bind fun r =>
         q.2.rets.flatten[0]? = some 0 ∧ (∀ d, d < 25 → xNow ∉ abs r.1 d) ∧
         (∀ c ∈ preEx.drop 1 ++ Spec.TdmaSched.Op.schedule 2 xLater :: postEx, xNow ∉ Spec.TdmaSched.placed c) ∧
         NoFlyPlaces envFly xNow t.2 ∧ ranCount xNow q.2 = 1 ∧ t.2.map (ranCount xNow) = [0, 0, 0, 0, 0, 0])) =
+    some true := by decide +kernel
+-- `onfly_set_runs_exactly_at`: the item of the second frame of the set scheduled by callback 14 (off = 1, k = 1)
+example : ((run envFly (init 24) histPre).toOption.bind fun r =>
+    (step envFly r.1 .execute).toOption.bind fun q =>
+    (run envFly q.1 restFly).toOption.map fun t =>
+      decide (
+        flyOps envFly q.2 = (preEx ++ Spec.TdmaSched.Op.schedule 2 xLater :: postEx.take 1) ++
+          Spec.TdmaSched.Op.scheduleSet 1 [[⟨.fn 3, 105, 0, 9, 0⟩], [xSet]] :: postEx.drop 2 ∧
+        q.2.rets.flatten[(preEx ++ Spec.TdmaSched.Op.schedule 2 xLater :: postEx.take 1).length]? = some 1 ∧
+        (∀ d, d < 25 → xSet ∉ abs r.1 d) ∧ NoFlyPlaces envFly xSet t.2 ∧
+        ranCount xSet q.2 = 0 ∧ t.2.map (ranCount xSet) = [0, 0, 0, 1, 0, 0])) =
     some true := by decide +kernel
 
 /-! ### corner cases of the real code, outside the premises of the property (confirmed on the C code) -/
